@@ -2,5 +2,5 @@ SPECIFICATION Spec
 CONSTANTS
   Family = "C06"
   MaxSys = 3
-INVARIANTS Confluent KeepsDeclared AuxAssigned Idempotent Emit
+INVARIANTS Confluent KeepsDeclared DemandKept AuxAssigned Idempotent Emit
 CHECK_DEADLOCK FALSE
